@@ -13,7 +13,11 @@ def run(ctx):
                 '(lev, 3*lev, lev/2, length difference, weighted lev, a code-sum distance unrelated to edit distance) x k = 1..3 x '
                 'max_custom_distance in {inf, 0, values on and next to attained distances}; small exhaustive string sets and random '
                 'repertoires. non-trivial := some pair is inside the Levenshtein radius but outside the custom radius or vice versa, '
-                'and the expected result is non-empty')
+                'and the expected result is non-empty. Widened (c14_wide.py, c14_tcrdist_wide.py; counters wide_* / tcrdist_wide_*): containers, '
+                'omitted and positional arguments, kinds of callables, options documented as ignored, kdtree speed options, matrix outputs, sizes '
+                '(1 sequence, >= 128 / >= 256 residues, > 1000 sequences, > 255 table rows), alphabets, second collections, call histories over '
+                'module-level state, containers refilled in place; for nearest_neighbor_tcrdist also table kinds, partial tcrdist_kwargs, **kwargs '
+                'and radii at attained values - non-trivial there := the expected result is non-empty')
     cases = []
 
     def mk(engine, which, seqs, k, maxc, seqs2=None):
@@ -146,6 +150,10 @@ def run(ctx):
                               dict(steps=[[a, b, None if c is None else str(c), d] for a, b, c, d in steps[:step + 1]], n_cpu=2, got=str(g)[:300]),
                               site='nn.kdtree[custom,n_cpu=2,history]')
                 break
+    # coverage audit: the input space around the cases above (containers, defaults, kinds of callables, ignored options, kdtree speed
+    # options, matrix outputs, sizes, alphabets, second collections, histories) - see c14_wide.py
+    import c14_wide
+    c14_wide.run(ctx)
     import c14_tcrdist
     c14_tcrdist.run(ctx)
     ctx.assumptions += ['custom distances are symmetric with d(x,x) = 0 (stated domain)',
